@@ -221,7 +221,7 @@ func (p *Peer) answerOffer(versions []int, what string) ([][]byte, error) {
 // receiveFragment applies the v3 instance-tag filter and the reassembly
 // rule; a completed message is processed like any other.
 func (p *Peer) receiveFragment(msg []byte) ([][]byte, error) {
-	f, err := ParseFragment(msg)
+	f, err := ParseFragmentLenient(msg)
 	if err != nil {
 		return nil, reject("fragment-parse", "%v", err)
 	}
